@@ -17,6 +17,7 @@ RELATED = {
     'C02_b': ['C02', 'C15'], 'C03_b': ['C03'], 'C05_b': ['C05'], 'C06_b': ['C06'], 'C07_b': ['C07'], 'C08_b': ['C08'],
     'C10_b': ['C10'], 'C13_b': ['C13'],
     'C04_c': ['C04'], 'C09_c': ['C09'], 'C11_c': ['C11'], 'C12_c': ['C12'], 'C14_c': ['C14', 'C10'], 'C15_c': ['C15'],
+    'C01_c': ['C01', 'C12'], 'C16_c': ['C16'], 'C17_c': ['C17'], 'C18_c': ['C18', 'C13'], 'C19_c': ['C19', 'C03'], 'C20_c': ['C20'],
 }
 
 
